@@ -249,6 +249,15 @@ func (e *Engine) callByContract(fr *Frame, st *State, ins ssa.Instruction, c *Co
 	for i, n := range names {
 		vars[n] = SVal{V: e.materialize(args[i], ptypes[i]), T: ptypes[i]}
 	}
+	var as []*Term
+	for i := range args {
+		as = append(as, e.materialize(args[i], ptypes[i]).flat()...)
+	}
+	return e.applyContract(fr, st, ins, c, key, vars, resType, as), nil
+}
+
+// applyContract: check requires, havoc modifies, assume ensures; returns the (fresh) result.
+func (e *Engine) applyContract(fr *Frame, st *State, ins ssa.Instruction, c *Contract, key string, vars map[string]SVal, resType types.Type, argTerms []*Term) Val {
 	var pkg *types.Package
 	if e.curFn != nil && e.curFn.Pkg != nil {
 		pkg = e.curFn.Pkg.Pkg
@@ -301,17 +310,13 @@ func (e *Engine) callByContract(fr *Frame, st *State, ins ssa.Instruction, c *Co
 	}
 	if c.Pure {
 		// deterministic function of its scalar arguments
-		var as []*Term
-		for i := range args {
-			as = append(as, e.materialize(args[i], ptypes[i]).flat()...)
-		}
 		ls := leaves(resType)
 		rs := res.flat()
 		for i, l := range ls {
-			st.assume(Eq(rs[i], App("fn$"+key+l.path, l.sort, as...)))
+			st.assume(Eq(rs[i], App("fn$"+key+l.path, l.sort, argTerms...)))
 		}
 	}
-	return res, nil
+	return res
 }
 
 func orStr(a, b string) string {
